@@ -71,7 +71,7 @@ BG = 16              # faint background (uint8) so that zero padding is distingu
 SLP = "tests/assets/minimal_instance.pkg.slp"
 
 torch = None  # set in main after import_repo
-STATS = {"blobs_measured": 0, "blob_outside_or_border": 0, "max_content_residual_px": 0.0, "max_registration_err_px": 0.0}
+STATS = {"blobs_measured": 0, "blob_outside_or_border": 0, "blobs_too_close": 0, "max_content_residual_px": 0.0, "max_registration_err_px": 0.0}
 
 
 # =========================================================================== marker images
@@ -171,6 +171,11 @@ class Rec:
                 return out
 
         aug.AugmentationSequential = Recording
+
+
+def smax(mat):
+    """largest singular value of the linear part (how much a blob can grow along one direction)"""
+    return float(np.linalg.svd(np.asarray(mat, dtype=np.float64).reshape(-1, 3, 3)[0][:2, :2], compute_uv=False)[0])
 
 
 def aff_of(mat):
@@ -366,9 +371,20 @@ def compare_points(chk, c, what, img2d, model_pts, impl_kps, sigma_out, sigs_fn,
         if not (m <= cx <= W - 1 - m and m <= cy <= H - 1 - m):
             STATS["blob_outside_or_border"] += 1
             continue
-        got = measure(img2d, (cx, cy), 3.0 * sigma_out + 1.0)
+        # the measurement window must hold ONE blob: bound it by half the distance to the nearest other
+        # transformed keypoint (model content and returned keypoints both), discard-and-count otherwise
+        others = [q["content"] for j, q in enumerate(model_pts) if j != i] + \
+                 [q for j, q in enumerate(impl_kps) if j != i and q is not None and q[0] is not None]
+        dmin = min([math.hypot(cx - q[0], cy - q[1]) for q in others] +
+                   [math.hypot(ik[0] - q[0], ik[1] - q[1]) for q in others] + [1e9])
+        r_win = min(3.0 * sigma_out + 1.0, dmin / 2 - 0.5)
+        if r_win < 2.2 * sigma_out:
+            STATS["blobs_too_close"] += 1
+            chk.knife_edges += 1
+            continue
+        got = measure(img2d, (cx, cy), r_win)
         if got is None:
-            got = measure(img2d, (ik[0], ik[1]), 3.0 * sigma_out + 1.0)
+            got = measure(img2d, (ik[0], ik[1]), r_win)
         if got is None:
             chk.disagree(f"{what}: blob found where the model's content map puts it", {**c, "point": i}, None, [cx, cy])
             ok = False
@@ -640,7 +656,7 @@ def exec_aug(c):
     ops = [("int",)] if c["mode"] == "int" or not mats else [("aug", *[fr_s(v) for v in aff_of(mats[-1])])]
     obs = {"shape": list(o.shape[-2:]), "kps": t2l(k), "bit_identical": bool(torch.equal(torch.nan_to_num(k, nan=-7.0), torch.nan_to_num(inst, nan=-7.0))),
            "nan_pattern_same": bool(torch.equal(torch.isnan(k), torch.isnan(inst))),
-           "calls": len(Rec.log), "det": float(abs(np.linalg.det(mats[-1].reshape(-1, 3, 3)[0][:2, :2]))) if mats else 1.0,
+           "calls": len(Rec.log), "det": smax(mats[-1]) ** 2 if mats else 1.0,
            "_img": o[0].mean(0).numpy()}
     return [chain_line(c["h"], c["w"], ops, c["pts"])], obs
 
@@ -771,7 +787,7 @@ def exec_ds(c):
                       "kps": kps, "missing": [p[0] is None or p[1] is None for p in pts], "n_pre": n_pre,
                       "centroid": t2l(s["centroid"])[0] if cls == "Centered" else None,
                       "bbox": t2l(s["instance_bbox"]) if cls == "Centered" else None,
-                      "det": float(abs(np.linalg.det(mats[-1].reshape(-1, 3, 3)[0][:2, :2]))) if mats else 1.0,
+                      "det": smax(mats[-1]) ** 2 if mats else 1.0,
                       "orig_size": [float(v) for v in s["orig_size"].flatten().tolist()],
                       "fi": fi, "ii": ii, "_img": g2})
     return lines, {"items": items}
